@@ -12,13 +12,16 @@
                     expression required for FOR", EXC_PARSE_OTHER_S, statement_for.cpp:243). IF / WHILE conditions are not type
                     checked by the C++ (statement_if.cpp, statement_while.cpp have no assertType).
   * `runBatch`      `Parser::parse` of the whole text, then `Executable::run`: compile everything against the symbol table the
-                    parser builds from the TEXT (static types), then `runProgram`.
+                    parser builds from the TEXT (static types), refuse a text that writes to a name locked by an enclosing
+                    `forall` (`lockProgram`, Model/Interp.lean: EXC_PARSE_CONST_VIOLATION_S — tested after the type checks, so
+                    a text with both kinds of error reports the type error), then `runProgram`.
   * `runStepwise`   the interactive path (apps/cli_parser.cpp main loop; probe op `step`): for each top-level statement,
                     `parseStatement` against the symbol table as it is NOW — every symbol carries the type of the value it
                     holds (`Context::storeVariable` upgrades the symbol to the stored value's type; `parsingEnd` restores the
                     upgrades of the parse) — then `Executable::run` of that one statement; stop at the first error or `return`.
 -/
 import BlocV.Model.Safety
+import BlocV.Model.Elab
 
 namespace BlocV.Stepwise
 open BlocV BlocV.Safety
@@ -179,6 +182,10 @@ def runBatch (fuel : Nat) (prog : List Stmt) (init : St := {}) : Result :=
     match compileList funcs [] (prog.filter fun st => !isFunc st) with
     | .error code => { outcome := .perr code, st := init }
     | .ok _ =>
+      -- BEGIN C01X2 (the parse-time lock of a traversed table: statement_forall.cpp `parse_clause`, `Context::registerSymbol`,
+      -- member_{concat,put,delete,insert}.cpp `parse` — a text that writes to a locked name is REFUSED, never run)
+      if !lockProgram prog then { outcome := .perr Gen.EXC_PARSE_CONST_VIOLATION_S, st := init } else
+      -- END C01X2
       let r := runProgram fuel prog init
       { outcome := .ran r.outcome, st := r.st }
 
@@ -197,11 +204,18 @@ def stepLoop (fuel : Nat) : List Stmt → List Stmt → St → Result
     if isFunc st then
       match compileFunc funcs st with
       | some code => { outcome := .perr code, st := s }
-      | none => stepLoop fuel (done ++ [st]) rest s
+      | none =>
+        -- BEGIN C01X2 (a function body is compiled in its own context: nothing locked at its start)
+        if !lockProgram [st] then { outcome := .perr Gen.EXC_PARSE_CONST_VIOLATION_S, st := s } else
+        -- END C01X2
+        stepLoop fuel (done ++ [st]) rest s
     else
       match compileStmt funcs 1000 [] (tabOfVars s.vars) st with
       | .error code => { outcome := .perr code, st := s }
       | .ok t' =>
+        -- BEGIN C01X2 (the same refusal, statement by statement)
+        if !lockS [] st then { outcome := .perr Gen.EXC_PARSE_CONST_VIOLATION_S, st := s } else
+        -- END C01X2
         match exec funcs 0 fuel st { s with vars := addSlots s.vars t' } with
         | (.ok fl, s') =>
           if fl == .ret then { outcome := .ran (.ok s'.returned), st := s' }
@@ -228,5 +242,29 @@ def Outcome.perrCode : Outcome → Option Nat
 def Outcome.ranOk : Outcome → Bool
   | .ran (.ok _) => true
   | _ => false
+
+-- BEGIN C01X2
+/-! ### the whole pipeline on a source text
+
+`runText fuel text` is what the driver's `src` command answers and what `Proofs/C01.lean` `text_no_hazard_partial` is about: the bytes
+through the reader + scanner + parser models (`Parse.parseText`: Model/Lex.lean, Model/Parse.lean), the elaborator (`Elab.elabProgram`),
+then `runBatch` (compile checks, lock, `runProgram` from the initial state). The four kinds of answer are explicit. -/
+
+/-- What the front end answers for a source text. -/
+inductive TextResult
+  /-- refused by the scanner / parser model: an `EXC_PARSE_*` code, or one of the pseudo codes of Model/Parse.lean (`eOOF`: out of
+  fuel; `eUnmodelled`: import / include; `eForeign`: an exception that is not a ParseError escapes the parser) -/
+  | rejected (code : Nat)
+  /-- the text parses, but holds a construct the interpreter model has no node for (`Elab.ElabErr.unsupported`) -/
+  | unsupported (what : String)
+  /-- compiled (or refused by the compile checks: `Outcome.perr`) and run (`Outcome.ran`) -/
+  | ran (r : Result)
+
+def runText (fuel : Nat) (text : Bytes) : TextResult :=
+  match Elab.frontEnd text with
+  | .error c => .rejected c
+  | .ok (.error (.unsupported w)) => .unsupported w
+  | .ok (.ok prog) => .ran (runBatch fuel prog)
+-- END C01X2
 
 end BlocV.Stepwise
